@@ -43,7 +43,7 @@ func init() {
 		keys, groups := vpGroup(env.cases, func(c *vpCase) string {
 			src := vpS(c.In, "source")
 			if vpB(c.In, "struct") {
-				return fmt.Sprint("struct", c.In["endpoint"], c.In["spelling"], c.In["preserve"], c.In["kind"], c.In["claim"], src == "basic")
+				return fmt.Sprint("struct", c.In["endpoint"], c.In["spelling"], c.In["preserve"], c.In["kind"], c.In["claim"], src == "basic", c.In["neighbour"])
 			}
 			return fmt.Sprint(vpJSON(c.In["flags"]), c.In["store"], src == "basic" || src == "form", src == "cookie_minimal")
 		})
@@ -82,6 +82,12 @@ func init() {
 					hs = append(hs, vpHeaderCfg{Name: name, Claim: claim, Preserve: h.Preserve})
 				case "none":
 					hs[0].NoValues = true
+				}
+				switch vpS(in0, "neighbour") {
+				case "preserved_before":
+					hs = append([]vpHeaderCfg{{Name: "X-Vp-Other", Claim: "email", Preserve: true}}, hs...)
+				case "preserved_after":
+					hs = append(hs, vpHeaderCfg{Name: "X-Vp-Other", Claim: "email", Preserve: true})
 				}
 				cfg.Legacy = nil
 				cfg.Structured = true
@@ -262,6 +268,9 @@ func init() {
 						for _, n := range names {
 							nn := n
 							if structured {
+								if strings.EqualFold(n, "X-Vp-Other") {
+									continue // the neighbour is configuration, not the header under observation
+								}
 								nn = "X-Vp-Ident"
 							}
 							hl = append(hl, map[string]interface{}{"name": nn, "tags": project(r.UpLast.Header, n)})
